@@ -77,7 +77,10 @@ def gen_stage(rng, stage):
                       'n_runners_up': rng.randint(0, 3), 'min_markers': rng.choice([1, 1, 3]),
                       'drop_level': rng.choice(droppable) if droppable and rng.random() < 0.2 else None,
                       'flatten': rng.random() < 0.1, 'cloud_safe': rng.random() < 0.3,
-                      'encoding': rng.choice(['dense', 'csr', 'csc']), 'max_gb': rng.choice([1.0, 1e-6])}
+                      'encoding': rng.choice(['dense', 'csr', 'csc']), 'max_gb': rng.choice([1.0, 1e-6]),
+                      # the statistics files for the marker search named explicitly (the multi-dataset form of the
+                      # configuration) instead of falling back on precomputed_stats.path
+                      'explicit_path_list': rng.random() < 0.4}
     else:
         scn['mat'] = {'seed': rng.randrange(2 ** 31), 'n_rows': rng.randint(1, 12),
                       'n_cols': rng.randint(2, 14), 'density': rng.choice([0.1, 0.4, 0.9]),
@@ -186,7 +189,8 @@ def otf_driver_cfg(sb, ctx, cfg, outd, n_processors=None, tmp_dir=None):
         chunk_size=cfg['chunk_size'], bootstrap_factor=cfg['bootstrap_factor'],
         bootstrap_iteration=cfg['bootstrap_iteration'], rng_seed=cfg['rng_seed'],
         n_runners_up=cfg['n_runners_up'], min_markers=cfg['min_markers'], drop_level=cfg['drop_level'],
-        flatten=cfg['flatten'], cloud_safe=cfg['cloud_safe'], max_gb=cfg['max_gb'])
+        flatten=cfg['flatten'], cloud_safe=cfg['cloud_safe'], max_gb=cfg['max_gb'],
+        precomputed_path_list=[str(ctx['stats'])] if cfg.get('explicit_path_list') else None)
 
 
 def execute(scn, sb, ctx, k_i, kk):
